@@ -30,3 +30,11 @@ Qed.
 Lemma generated_neg_fold : forall v, 0 <= v < 2 ^ 63 ->
   neg_fold enc_table enc_default fold_table dec_table v = Some (- v).
 Proof. exact (neg_fold_correct enc_table enc_default fold_table dec_table generated_fold_wf generated_codec_wf). Qed.
+
+Lemma generated_case_wf : case_wf case_member_bits case_cast_bits case_arg_bits case_buf = true.
+Proof. vm_compute. reflexivity. Qed.
+
+Lemma generated_case_label : forall v, 0 <= v < 2 ^ 63 ->
+  case_pos case_member_bits case_cast_bits case_arg_bits v = v /\
+  case_neg case_member_bits case_cast_bits case_arg_bits v = - v.
+Proof. exact (case_label_value _ _ _ _ generated_case_wf). Qed.
